@@ -42,6 +42,8 @@ def run(m):
         r = subprocess.run(cmd, capture_output=True, text=True, env=env, cwd=VERIF)
         out = r.stdout + r.stderr
         viol = [l for l in out.split('\n') if l.startswith('VIOLATION') or l.strip().startswith('obligation ')]
+        if m.get('harmless'):
+            return ('QUIET-OK' if r.returncode == 0 else 'FALSE-ALARM'), out[-300:]
         if r.returncode == 1 and any(m['expect'] in l for l in viol):
             return 'CAUGHT', '; '.join(l.strip()[:160] for l in viol if 'obligation' in l)[:400]
         if r.returncode == 1:
@@ -62,7 +64,7 @@ def main():
             continue
         v, detail = run(m)
         print('%-8s %-12s %s :: %s' % (m['id'], v, m['what'], detail.replace('\n', ' ')[:300]))
-        if v not in ('CAUGHT', 'CAUGHT-OTHER'):
+        if v not in ('CAUGHT', 'CAUGHT-OTHER', 'QUIET-OK'):
             bad += 1
     return 1 if bad else 0
 
